@@ -107,9 +107,13 @@ type op10 struct {
 	Parts  int    `json:"parts,omitempty"` // tonative: the EVM transaction calls swapToNative this many times (one log each)
 	// tonative: the same EVM transaction also touches a contract that is not bound to any token and emits
 	// SwapToNative-shaped events of its own: Foreign of them, placed before (negative) or after the first real log
-	Foreign int    `json:"foreign,omitempty"`
-	Sym     string `json:"sym,omitempty"`    // deploy: symbol (and name) of the message; "" = the token's own / default symbol
-	DScale  int    `json:"dscale,omitempty"` // deploy: scale of the message + 1; 0 = the token's own / default scale
+	Foreign int `json:"foreign,omitempty"`
+	// tonative: what the EVM transaction was sent to - 0 the bound contract itself, 1 a router/wallet contract that calls
+	// swapToNative internally (the log's emitter is still the bound contract), 2 the contract of another token, 3 nothing
+	// (a contract creation whose constructor makes the call)
+	Via    int    `json:"via,omitempty"`
+	Sym    string `json:"sym,omitempty"`    // deploy: symbol (and name) of the message; "" = the token's own / default symbol
+	DScale int    `json:"dscale,omitempty"` // deploy: scale of the message + 1; 0 = the token's own / default scale
 }
 
 type m10 struct {
@@ -338,6 +342,7 @@ func (m *m10) Next(t *rapid.T) op10 {
 		}
 		op.Parts = rapid.SampledFrom([]int{1, 1, 1, 2, 3}).Draw(t, "parts")
 		op.Foreign = rapid.SampledFrom([]int{0, 0, 0, 1, 2, 3, -1, -2}).Draw(t, "foreign")
+		op.Via = rapid.SampledFrom([]int{0, 0, 0, 1, 1, 2, 3}).Draw(t, "via")
 		return op
 	case k < 78: // plain native mint / burn by the owner (legitimate changes of the sum)
 		op := op10{Kind: rapid.SampledFrom([]string{"mint", "burn"}).Draw(t, "mb"), Tok: rapid.SampledFrom([]int{0, 1, 2, 5, 6, 7, 8}).Draw(t, "tok")}
@@ -723,7 +728,25 @@ func (m *m10) Apply(op op10) error {
 			if parts > 1 {
 				m.cls["tonative-multi-log"] = true
 			}
-			msg := ethtypes.NewMessage(holder, tk.contract, 0, big.NewInt(0), 3000000, big.NewInt(0), big.NewInt(0), big.NewInt(0), nil, ethtypes.AccessList{}, false)
+			txTo := tk.contract
+			switch op.Via {
+			case 1:
+				router := common.HexToAddress("0x0000000000000000000000000000000000407e12")
+				txTo = &router
+				m.cls["tonative-through-a-router-contract"] = true
+			case 2:
+				for _, o := range m.toks {
+					if o != tk && o.contract != nil {
+						txTo = o.contract
+						m.cls["tonative-in-a-transaction-sent-to-another-token-contract"] = true
+						break
+					}
+				}
+			case 3:
+				txTo = nil
+				m.cls["tonative-in-a-contract-creation"] = true
+			}
+			msg := ethtypes.NewMessage(holder, txTo, 0, big.NewInt(0), 3000000, big.NewInt(0), big.NewInt(0), big.NewInt(0), nil, ethtypes.AccessList{}, false)
 			return e.K.Token.Hooks().PostTxProcessing(ctx, msg, receipt)
 		})
 		if to != nil {
